@@ -209,6 +209,14 @@ def run(chk):
     extra = common.load_corpus("C13", 100000)
     gens += [("c07", c) for c in extra]
     crash, ofail = [], []
+    # decoders that really decode (complete audio packets over generated set-ups: floor 0 and 1, equal and unequal block sizes, both window flags
+    # in use) and are then cleared: the look-up tables built lazily while decoding are part of what the clear calls own (sanitizer build: a block
+    # released twice or used after release ends the case)
+    from . import c02 as C02
+    pk = C02.complete_packet_cases(chk, 40 if chk.tier == "quick" else 400, [(6, 6), (8, 8), (7, 7), (6, 8), (9, 9)], npk=8)
+    for r in vlib.run_harness_only("c01", pk, variant="san", timeout=1800):
+        if r["c"] is None or (r["rc_c"] != 0 and r["err_c"]):
+            crash.append(("c01", r))
     hist = {"c15": 0, "c02": 0, "c07": 0}
     failures_seen = 0
     for variant in ("cnt", "san"):
